@@ -10,6 +10,7 @@ import (
 	"github.com/vektah/gqlparser/v2"
 	"github.com/vektah/gqlparser/v2/ast"
 	"github.com/vektah/gqlparser/v2/gqlerror"
+	"github.com/vektah/gqlparser/v2/parser"
 )
 
 // Native set-up and snapshot import/export (DESIGN §2.7): gqlparser's lexer, parser and validator
@@ -310,6 +311,23 @@ func init() {
 			return res
 		}
 	}
+	// parser.ParseQuery / ParseSchema on a concrete source: lexer and parser run natively
+	R("github.com/vektah/gqlparser/v2/parser.ParseQuery", func(m *Machine, a []Value) Value {
+		var res Value
+		m.safeNative("ParseQuery", func() {
+			ex := m.newExporter()
+			src := ex.Export(a[0], reflect.TypeOf((*ast.Source)(nil))).Interface().(*ast.Source)
+			doc, err := parser.ParseQuery(src)
+			im := m.importerSeeded(ex)
+			var e Value = Iface{}
+			if err != nil {
+				e = im.Import(reflect.ValueOf(&err).Elem())
+			}
+			res = Tuple{im.Import(reflect.ValueOf(doc)), e}
+			m.freeze(res)
+		})
+		return res
+	})
 	R(gp+"LoadQuery", loadQuery(false))
 	R(gp+"MustLoadQuery", loadQuery(true))
 }
